@@ -179,6 +179,247 @@ class DeMorgan(ast.NodeTransformer):
         return node
 
 
+class InToOr(ast.NodeTransformer):
+    """`x in (A, B)` -> `x == A or x == B`;  `x not in (A, B)` -> `x != A and x != B`
+    (pure Name/Attribute subject, tuple of Names/Attributes/Constants)."""
+
+    def visit_Compare(self, node):
+        self.generic_visit(node)
+        if len(node.ops) == 1 and isinstance(node.ops[0], (ast.In, ast.NotIn)) and isinstance(node.comparators[0], ast.Tuple):
+            elts = node.comparators[0].elts
+            subj = node.left
+            def pure(e):
+                return all(isinstance(x, (ast.Name, ast.Attribute, ast.Load)) for x in ast.walk(e))
+            if 2 <= len(elts) <= 4 and pure(subj) and all(isinstance(e, (ast.Name, ast.Attribute)) and pure(e) for e in elts):
+                pos = isinstance(node.ops[0], ast.In)
+                parts = [ast.Compare(left=subj, ops=[ast.Eq() if pos else ast.NotEq()], comparators=[e]) for e in elts]
+                return ast.copy_location(ast.BoolOp(op=ast.Or() if pos else ast.And(), values=parts), node)
+        return node
+
+
+class PopToDel(ast.NodeTransformer):
+    """statement `d.pop(k)` (result unused, no default) -> `del d[k]`"""
+
+    def visit_Expr(self, node):
+        v = node.value
+        if isinstance(v, ast.Call) and isinstance(v.func, ast.Attribute) and v.func.attr == "pop" and len(v.args) == 1 and not v.keywords:
+            recv = v.func.value
+            # only receivers that are attributes of self (dict-like state tables); lists use pop(index) too, which `del` also covers
+            if isinstance(recv, ast.Attribute) and isinstance(recv.value, ast.Name) and recv.value.id == "self" and not isinstance(v.args[0], ast.Constant):
+                return ast.copy_location(ast.Delete(targets=[ast.Subscript(value=recv, slice=v.args[0], ctx=ast.Del())]), node)
+        return node
+
+
+class DelToPop(ast.NodeTransformer):
+    """`del self.d[k]` -> `self.d.pop(k)`"""
+
+    def visit_Delete(self, node):
+        if len(node.targets) == 1 and isinstance(node.targets[0], ast.Subscript):
+            t = node.targets[0]
+            if isinstance(t.value, ast.Attribute) and isinstance(t.value.value, ast.Name) and t.value.value.id == "self" and not isinstance(t.slice, (ast.Slice, ast.Constant)):
+                call = ast.Call(func=ast.Attribute(value=t.value, attr="pop", ctx=ast.Load()), args=[t.slice], keywords=[])
+                return ast.copy_location(ast.Expr(value=call), node)
+        return node
+
+
+class GuardClause(ast.NodeTransformer):
+    """A function whose last statement is `if c: A else: B` (A, B not ending the same way) becomes
+    `if not c: B; return` + A  -- only in functions that return nothing."""
+
+    def visit_FunctionDef(self, node):
+        self.generic_visit(node)
+        if not node.body or not isinstance(node.body[-1], ast.If):
+            return node
+        if any(isinstance(n, ast.Return) and n.value is not None for n in ast.walk(node)) or any(isinstance(n, (ast.Yield, ast.YieldFrom)) for n in ast.walk(node)):
+            return node
+        last = node.body[-1]
+        if not last.orelse or (len(last.orelse) == 1 and isinstance(last.orelse[0], ast.If)):
+            return node
+        test = last.test
+        nt = test.operand if isinstance(test, ast.UnaryOp) and isinstance(test.op, ast.Not) else ast.UnaryOp(op=ast.Not(), operand=test)
+        guard = ast.If(test=nt, body=list(last.orelse) + [ast.Return(value=None)], orelse=[])
+        node.body = node.body[:-1] + [ast.copy_location(guard, last)] + list(last.body)
+        return node
+
+    visit_AsyncFunctionDef = visit_FunctionDef
+
+
+class HoistAttr(ast.NodeTransformer):
+    """Introduce a temporary for an attribute chain `p.a[.b]` on a parameter p that is read at least
+    twice and never stored to (nor is p re-bound) in the function: `a_of_p = p.a` at the top."""
+
+    def visit_FunctionDef(self, node):
+        self.generic_visit(node)
+        params = [a.arg for a in node.args.args if a.arg not in ("self", "cls")]
+        if not params:
+            return node
+        own = []
+        todo = list(node.body)
+        while todo:
+            n = todo.pop()
+            own.append(n)
+            if isinstance(n, (ast.FunctionDef, ast.AsyncFunctionDef, ast.Lambda, ast.ClassDef, ast.ListComp, ast.SetComp, ast.DictComp, ast.GeneratorExp)):
+                continue
+            todo.extend(ast.iter_child_nodes(n))
+        nested_names = set()
+        for n in ast.walk(node):
+            if isinstance(n, (ast.Lambda, ast.ListComp, ast.SetComp, ast.DictComp, ast.GeneratorExp)) or (isinstance(n, (ast.FunctionDef, ast.AsyncFunctionDef)) and n is not node):
+                for x in ast.walk(n):
+                    if isinstance(x, ast.Name):
+                        nested_names.add(x.id)
+        stored = {n.id for n in own if isinstance(n, ast.Name) and isinstance(n.ctx, (ast.Store, ast.Del))}
+        stored_attr = {ast.unparse(n) for n in own if isinstance(n, ast.Attribute) and isinstance(n.ctx, (ast.Store, ast.Del))}
+        has_await = any(isinstance(n, (ast.Await, ast.Yield, ast.YieldFrom)) for n in own)
+        if has_await:
+            return node
+        counts = {}
+        for n in own:
+            if isinstance(n, ast.Attribute) and isinstance(n.ctx, ast.Load) and isinstance(n.value, ast.Name) and n.value.id in params:
+                counts[ast.unparse(n)] = counts.get(ast.unparse(n), 0) + 1
+        used = {n.id for n in ast.walk(node) if isinstance(n, ast.Name)}
+        pre = []
+        for chain_, c in sorted(counts.items()):
+            p, a = chain_.split(".")
+            if c < 2 or p in stored or p in nested_names or any(s == chain_ or s.startswith(chain_ + ".") for s in stored_attr):
+                continue
+            if a in ("mtype", "mid", "remote", "token", "payload", "opt"):  # fields the library assigns on the object elsewhere while the function runs
+                continue
+            tmp = "%s_of_%s" % (a.strip("_"), p)
+            if tmp in used:
+                continue
+
+            class R(ast.NodeTransformer):
+                def visit_Attribute(s, n):
+                    if isinstance(n.ctx, ast.Load) and isinstance(n.value, ast.Name) and n.value.id == p and n.attr == a:
+                        return ast.copy_location(ast.Name(id=tmp, ctx=ast.Load()), n)
+                    return s.generic_visit(n)
+
+                def visit_Lambda(s, n):
+                    return n
+
+                visit_FunctionDef = visit_Lambda
+                visit_AsyncFunctionDef = visit_Lambda
+                visit_ListComp = visit_Lambda
+                visit_SetComp = visit_Lambda
+                visit_DictComp = visit_Lambda
+                visit_GeneratorExp = visit_Lambda
+
+            node.body = [R().visit(st) for st in node.body]
+            pre.append(ast.Assign(targets=[ast.Name(id=tmp, ctx=ast.Store())], value=ast.Attribute(value=ast.Name(id=p, ctx=ast.Load()), attr=a, ctx=ast.Load())))
+        if pre:
+            i = 1 if (node.body and isinstance(node.body[0], ast.Expr) and isinstance(node.body[0].value, ast.Constant)) else 0
+            node.body[i:i] = pre
+        return node
+
+    visit_AsyncFunctionDef = visit_FunctionDef
+
+
+class ExtractHelper(ast.NodeTransformer):
+    """Extract the arm of an `if` (>= 2 statements, no return/break/continue/await/yield, assigning no
+    local that is read afterwards) of a method into a new private method taking the locals it reads."""
+
+    counter = 0  # package-wide, so that helper names are unique
+
+    def visit_ClassDef(self, cls):
+        self.generic_visit(cls)
+        new_methods = []
+        for fn in list(cls.body):
+            if not isinstance(fn, ast.FunctionDef) or not fn.args.args or fn.args.args[0].arg != "self" or fn.decorator_list:
+                continue
+            if any(isinstance(n, (ast.Yield, ast.YieldFrom, ast.Nonlocal, ast.Global)) for n in ast.walk(fn)):
+                continue
+            local_names = {a.arg for a in fn.args.args + fn.args.kwonlyargs}
+            if fn.args.vararg: local_names.add(fn.args.vararg.arg)
+            if fn.args.kwarg: local_names.add(fn.args.kwarg.arg)
+            for n in ast.walk(fn):
+                if isinstance(n, ast.Name) and isinstance(n.ctx, ast.Store):
+                    local_names.add(n.id)
+                elif isinstance(n, ast.ExceptHandler) and n.name:
+                    local_names.add(n.name)
+            done = False
+            for ifst in [n for n in ast.walk(fn) if isinstance(n, ast.If)]:
+                if done:
+                    break
+                for arm_name in ("body", "orelse"):
+                    arm = getattr(ifst, arm_name)
+                    if len(arm) < 2 or (arm_name == "orelse" and len(arm) == 1):
+                        continue
+                    bad = False
+                    stored = set()
+                    loaded = []
+                    for st in arm:
+                        for n in ast.walk(st):
+                            if isinstance(n, (ast.Return, ast.Break, ast.Continue, ast.Await, ast.Yield, ast.YieldFrom, ast.FunctionDef, ast.AsyncFunctionDef, ast.Lambda, ast.Try, ast.With, ast.Raise, ast.ListComp, ast.GeneratorExp, ast.SetComp, ast.DictComp)):
+                                bad = True
+                            if isinstance(n, ast.Name):
+                                if isinstance(n.ctx, ast.Store):
+                                    stored.add(n.id)
+                                else:
+                                    loaded.append(n.id)
+                    if bad:
+                        continue
+                    # locals stored in the arm must not be used outside it
+                    arm_ids = {id(n) for st in arm for n in ast.walk(st)}
+                    used_outside = {n.id for n in ast.walk(fn) if isinstance(n, ast.Name) and id(n) not in arm_ids}
+                    if stored & used_outside:
+                        continue
+                    # reads of a name stored in the arm before its store would need it as parameter: keep simple
+                    ps = []
+                    for nme in loaded:
+                        if nme in local_names and nme != "self" and nme not in stored and nme not in ps:
+                            ps.append(nme)
+                    ExtractHelper.counter += 1
+                    hname = "_rv_helper_%d" % ExtractHelper.counter
+                    helper = ast.FunctionDef(name=hname, args=ast.arguments(posonlyargs=[], args=[ast.arg(arg="self")] + [ast.arg(arg=x) for x in ps], kwonlyargs=[], kw_defaults=[], defaults=[]), body=list(arm), decorator_list=[], type_params=[])
+                    call = ast.Expr(value=ast.Call(func=ast.Attribute(value=ast.Name(id="self", ctx=ast.Load()), attr=hname, ctx=ast.Load()), args=[ast.Name(id=x, ctx=ast.Load()) for x in ps], keywords=[]))
+                    setattr(ifst, arm_name, [ast.copy_location(call, arm[0])])
+                    new_methods.append(ast.copy_location(helper, fn))
+                    done = True
+                    break
+        cls.body.extend(new_methods)
+        return cls
+
+
+class NameConditions(ast.NodeTransformer):
+    """`if <pure comparison / boolean expression>:` -> `cond_N = <expr>` + `if cond_N:` (not for elif arms,
+    not inside loops' own tests)."""
+
+    counter = 0
+
+    @staticmethod
+    def _pure(e):
+        for x in ast.walk(e):
+            if isinstance(x, (ast.Name, ast.Attribute, ast.Constant, ast.Compare, ast.BoolOp, ast.UnaryOp, ast.Tuple, ast.Load, ast.boolop, ast.cmpop, ast.unaryop)):
+                if isinstance(x, ast.Compare) and any(isinstance(o, (ast.In, ast.NotIn)) for o in x.ops) and not all(isinstance(c, ast.Tuple) for c in x.comparators):
+                    return False
+                continue
+            return False
+        return isinstance(e, (ast.Compare, ast.BoolOp))
+
+    def _block(self, body):
+        out = []
+        for st in body:
+            if isinstance(st, ast.If) and self._pure(st.test):
+                NameConditions.counter += 1
+                nm = "cond_%d" % NameConditions.counter
+                out.append(ast.copy_location(ast.Assign(targets=[ast.Name(id=nm, ctx=ast.Store())], value=st.test), st))
+                st.test = ast.copy_location(ast.Name(id=nm, ctx=ast.Load()), st.test)
+            out.append(st)
+        return out
+
+    def generic_visit(self, node):
+        super().generic_visit(node)
+        for field in ("body", "orelse", "finalbody"):
+            lst = getattr(node, field, None)
+            if isinstance(lst, list) and lst and isinstance(lst[0], ast.stmt):
+                if field == "orelse" and isinstance(node, ast.If) and len(lst) == 1 and isinstance(lst[0], ast.If):
+                    continue  # elif
+                if isinstance(node, (ast.Module, ast.ClassDef)):
+                    continue
+                setattr(node, field, self._block(lst))
+        return node
+
+
 VARIANTS = {
     "unparse": [],
     "rename-locals": [RenameLocals],
@@ -189,6 +430,13 @@ VARIANTS = {
     "strip-logging": [StripLogging],
     "chain-compare": [ChainCompare],
     "de-morgan": [DeMorgan],
+    "in-to-or": [InToOr],
+    "pop-to-del": [PopToDel],
+    "del-to-pop": [DelToPop],
+    "guard-clause": [GuardClause],
+    "hoist-attr": [HoistAttr],
+    "extract-helper": [ExtractHelper],
+    "name-conditions": [NameConditions],
     "all": [RenameLocals, FlipCompare, SwapIfElse, ExpandAug, AddLogging, ChainCompare, DeMorgan],
 }
 
